@@ -100,3 +100,18 @@ class FakeRecvTransport(object):
     def __init__(self):
         self._recv_data_stream = b""
         self._recv_data_available = None
+
+
+class FakeThread(object):
+    """a handler thread as the dispatcher loop sees it: `done` (a modelled Event) is set when the thread has
+    finished -- possibly never, e.g. a route function that itself waits for an answer the dispatcher has yet to
+    deliver; is_alive() reads it, join() WAITS for it (so joining a live thread blocks the caller)"""
+
+    def __init__(self):
+        self.done = None
+
+    def is_alive(self):
+        return not self.done.is_set()
+
+    def join(self, timeout=None):
+        self.done.wait()
